@@ -9,7 +9,12 @@ extracted Coq model / oracles together with what predict() returned in its three
     corr    (1803): every returned value against the code-shaped model functions mean1/2/3, var_total, var_al, var_ep
 sqrt is an oracle: standard deviations are compared through their (exact) squares.
 Second stream: the 'd' acquisition variants receive exactly the epistemic standard deviation (1805 ok_lcb for LCB/LCBd,
-metamorphic equality with a stub surrogate returning (mean, std_ep) for EI/PI/MES).
+metamorphic equality with a stub surrogate returning (mean, std_ep) for EI/PI/MES; predict_epistemic_std itself).
+Third stream (forest_session, step-wise): ONE forest object and ONE query buffer through a script of operations - buffer
+refilled in place, returned arrays edited by the caller, refit, warm start (estimators_ extended in place), set_params /
+attribute changes of min_variance and n_jobs, pickle / deepcopy / clone round trips, inputs as list / Fortran / view / float32 -
+every predict step checked (same oracles) against the oracle read afresh from the current estimators_; plus input_mutated,
+aliasing, n_trees, warm_start_keeps_trees, clone_params.  Model side: the session machine run/step (C18_session_* theorems).
 """
 import math
 import signal
@@ -44,7 +49,8 @@ ASSUMPTIONS = [
     "min_variance >= 0 for the exact law (theorem hypothesis; C18_total_variance_needs_floor shows it cannot be dropped in the model); "
     "a few generated cases use a negative floor and are still checked against the model",
 ]
-RULE = ("forest_predict / acq_d: training set, query points, forest options and seed drawn from random.Random(seed/C18/stream); "
+RULE = ("forest_session: a forest case plus 2-7 random operations, each followed by a predict step; "
+        "forest_predict / acq_d: training set, query points, forest options and seed drawn from random.Random(seed/C18/stream); "
         "non-trivial = at least 2 trees and a query point where both the aleatoric and the epistemic part are > 0")
 
 F_MODEL, F_CLAUSES, F_CORR, F_SAME, F_LCB, F_OK = 1801, 1802, 1803, 1804, 1805, 1806
